@@ -196,7 +196,7 @@ func c04DefaultDeny(c *Ctx) {
 			"on a WAL restart the decision to continue incrementally never looks at the WAL at or beyond the old cursor: frames the previous generation appended after the last sync are lost")
 	} else {
 		for _, call := range calls5 {
-			a := refArgs(call)
+			a := call.Common().Args // leaf-based and order-free: today's arguments themselves
 			// the old cursor and both previous-generation salt words are handed over
 			// (positionally, or bundled in an array literal)
 			var leaves []ssa.Value
